@@ -9,6 +9,7 @@ pub mod c04;
 pub mod c05;
 pub mod c06;
 pub mod c07;
+pub mod c10;
 pub mod c13;
 pub mod util;
 
@@ -31,6 +32,7 @@ pub fn scenario(name: &str) -> Option<Scenario> {
         "c06_hotspot_qps" => c06::c06_hotspot_qps,
         "c07_flow_throttling" => c07::c07_flow_throttling,
         "c07_hotspot_throttling" => c07::c07_hotspot_throttling,
+        "c10_manager" => c10::c10_manager,
         "c13_chain" => c13::c13_chain,
         _ => return None,
     })
